@@ -111,7 +111,10 @@ impl TokenList for &[Token] {
                 if token.range.start >= index {
                     break;
                 }
-                current = token;
+                // comments can stand between any two tokens
+                if !matches!(token.token_type, TokenType::Comment(_)) {
+                    current = token;
+                }
             }
             Some(current)
         } else {
